@@ -1120,6 +1120,8 @@ class WcParse(Generic[AnyStr]):
             if c == '[':
                 last_posix = self._handle_posix(i, result, end_range)
                 if last_posix:
+                    # A hyphen in front of the class was turned into a literal: no range is pending anymore.
+                    end_range = 0
                     c = next(i)
                     continue
 
